@@ -251,6 +251,24 @@ var c15Leaves = []c15Leaf{
 		return out
 	}},
 	c15RowLeaf("D", "f", 3), // only used by the history part (Store destination)
+	// further integer conditions (indices 10..13): the stored extreme 3 = 2^2-1 is the bit-depth maximum,
+	// and the predicates lie between it and the field's maximum 10 / around zero
+	{name: "VL", pql: "Row(v < 5)", cols: c15IntLeaf(func(v int64) bool { return v < 5 })},
+	{name: "VLE", pql: "Row(v <= 3)", cols: c15IntLeaf(func(v int64) bool { return v <= 3 })},
+	{name: "VB", pql: "Row(-1 <= v < 3)", cols: c15IntLeaf(func(v int64) bool { return -1 <= v && v < 3 })},
+	{name: "VE", pql: "Row(v == 0)", cols: c15IntLeaf(func(v int64) bool { return v == 0 })},
+}
+
+func c15IntLeaf(pred func(v int64) bool) func(m *c15Model) c15Set {
+	return func(m *c15Model) c15Set {
+		out := c15Set{}
+		for c, v := range m.ints {
+			if pred(v) {
+				out[c] = struct{}{}
+			}
+		}
+		return out
+	}
 }
 
 const (
@@ -936,7 +954,7 @@ func TestVerif_C15(t *testing.T) {
 	if c.Thorough() {
 		small = []int{c15LeafA, c15LeafB, c15LeafC, 3}
 	}
-	allLeaves := []int{0, 1, 2, 3, 4, 5, 6, 7, 8}
+	allLeaves := []int{0, 1, 2, 3, 4, 5, 6, 7, 8, 10, 11, 12, 13}
 	d1 := c15Depth1(allLeaves, []int{0, 1, 2, 3}, true)
 	// sub-trees for depth 2: depth<=1 trees over the small leaf set, binary/unary operators only
 	var subs []*c15X
